@@ -9,9 +9,9 @@ COQ_IMPORTS = 'From PB Require Import model.M_table.\n'
 PER_FILE = 120
 CASE_TIMEOUT = 10
 NREGS = 3
-RULE = ('cases: histories of 1-12 public table operations over 3 registers (constructors from records / keyword or dict columns '
+RULE = ('cases: histories of 1-12 public table operations over 3 registers (assignment as d[k]=v, d.update({k: v}), d.k = v with extra misfits on one-row tables; constructors from records / keyword or dict columns '
         'with scalars / rows+headers / header-row form; d[k]=v, del d[k]; d[i], d[k], d[i][k] vs d[k][i], d[k1,k2], d[callable], list(d); '
-        'slices incl. negative bounds and steps (negative too), range indices (ascending, descending down to row 0, stepped, empty, out of range), bool masks, int lists, column lists; d(k=value|callable); relabel prefix/suffix/map; do; '
+        'slices incl. negative bounds and steps (negative too), range indices (ascending, descending down to row 0, stepped, empty, out of range), bool masks, int lists, column lists; d(k=value|callable); relabel / rename prefix, suffix, maps to fresh names, bijective maps among existing columns (swaps, cycles, identity entries, absent columns, chains ending in a fresh name); do; '
         'dictable.concat of 0-3 tables, d+None, d+0, 0+d, d+d, d+record; copy) on tables of 0-5 rows x 0-4 columns incl. empty tables and '
         'columns without rows, cells None/int/float/NaN objects/str/datetime; a separate malformed stream (misfit lengths, missing keys, '
         'out-of-range indices, ragged rows, wrong-length masks); plus every single op on every table with <= 2 rows x <= 2 columns over two '
@@ -24,7 +24,7 @@ EXPLANATION = ('theorems C01_* (coq/props/C01.v) hold for every history (fold ov
                'with equal outputs; the correspondence ties the dict-of-lists model to /repo on generated histories')
 TRUSTED = ['modelled, not verified: the dict-of-lists model coq/model/M_table.v of _dictable.py/_zip.py (tied by the correspondence only)',
            'dict key order is not modelled: observations are compared with columns sorted by name; generated ops never depend on key order '
-           '(relabel maps are collision free, two-argument do-functions only with explicit keys)',
+           '(relabel maps are injective on every table: permutations of a name set or chains ending in a history-fresh name; two-argument do-functions only with explicit keys)',
            'Dict.copy is modelled as the identity on contents (it re-inserts every column through __setitem__)']
 ASSUMPTIONS = ['cells are None, ints, half-integer floats, NaN objects, ASCII strings, datetimes', 'column names are ASCII identifiers other than "key"',
                'row/column callables come from the named set coalesce, is_none, identity, eq (model: M_table.rowfn, colfn)']
@@ -375,7 +375,10 @@ def impl(case):
                 rows = [[conv(x) for x in r] for r in o['rows']]
                 result = dictable([list(o['names'])] + rows) if o['hdr'] else dictable(rows, list(o['names']))
             elif k == 'set':
-                v = o['v']; regs[o['r']][o['key']] = conv(v['S']) if 'S' in v else [conv(x) for x in v['L']]
+                v = o['v']; val = conv(v['S']) if 'S' in v else [conv(x) for x in v['L']]
+                if o.get('form') == 'update': regs[o['r']].update({o['key']: val})
+                elif o.get('form') == 'attr' and not o['key'].startswith('_'): setattr(regs[o['r']], o['key'], val)
+                else: regs[o['r']][o['key']] = val
             elif k == 'del': del regs[o['r']][o['key']]
             elif k == 'getrow': out = regs[o['r']][o['i']]
             elif k == 'getcol': out = regs[o['r']][o['key']]
@@ -398,7 +401,8 @@ def impl(case):
                 result = regs[o['r']](**{o['key']: val})
             elif k == 'relabel':
                 sp = o['sp']
-                result = regs[o['r']].relabel(sp[1]) if sp[0] in ('prefix', 'suffix') else regs[o['r']].relabel(**dict(map(tuple, sp[1])))
+                meth = regs[o['r']].rename if o.get('form') == 'rename' else regs[o['r']].relabel
+                result = meth(sp[1]) if sp[0] in ('prefix', 'suffix') else meth(**dict(map(tuple, sp[1])))
             elif k == 'do':
                 f = mk_colfn(o['f'])
                 result = regs[o['r']].do(f) if o['ks'] is None else regs[o['r']].do(f, []) if not o['ks'] else regs[o['r']].do(f, *o['ks'])
@@ -496,7 +500,7 @@ def rname(rng, t=None, p_exist=0.7):
     return rng.choice(NAMES)
 
 def gen_new(rng, dst, malformed):
-    nrows = rng.choice([0, 0, 1, 1, 2, 3, 4, 5]); ncols = rng.choice([0, 1, 1, 2, 2, 3, 4])
+    nrows = rng.choice([0, 0, 1, 1, 1, 2, 3, 4, 5]); ncols = rng.choice([0, 1, 1, 2, 2, 3, 4])
     names = rng.sample(NAMES, ncols)
     r = rng.random()
     if r < 0.3:
@@ -550,7 +554,8 @@ def gen_op(rng, shadow, malformed):
         elif q < 0.35: v = {'L': [rcell(rng)]}
         elif malformed or q < 0.5: v = {'L': [rcell(rng) for _ in range(rng.choice([0, 2, n + 1, max(0, n - 1), n]))]}
         else: v = {'L': [rcell(rng) for _ in range(n)]}
-        return {'op': 'set', 'r': r, 'key': rname(rng, t, 0.4), 'v': v}
+        if n == 1 and rng.random() < 0.4: v = {'L': [rcell(rng) for _ in range(rng.choice([2, 3, 3, 0]))]}     # a longer column on a ONE-row table
+        return {'op': 'set', 'r': r, 'key': rname(rng, t, 0.4), 'v': v, 'form': rng.choice(['item', 'item', 'update', 'update', 'attr'])}
     if kind == 'del': return {'op': 'del', 'r': r, 'key': rname(rng, t, 0.95 if not malformed else 0.5)}
     ri = lambda: rng.randrange(-n - 1, n + 1) if (malformed or n == 0) else rng.randrange(-n, n)
     if kind == 'getrow': return {'op': 'getrow', 'r': r, 'i': ri()}
@@ -584,20 +589,35 @@ def gen_op(rng, shadow, malformed):
         else:
             q = rng.random()
             arg = {'v': {'S': rcell(rng)} if q < 0.4 else {'L': [rcell(rng) for _ in range(n if q < 0.85 and not malformed else rng.choice([0, 1, 2, n + 1]))]}}
+            if n == 1 and rng.random() < 0.4: arg = {'v': {'L': [rcell(rng) for _ in range(rng.choice([2, 3, 3, 0]))]}}   # t(c=[1,2,3]) on a ONE-row table
         return {'op': 'call', 'dst': dst, 'r': r, 'key': rname(rng, t, 0.3), 'arg': arg}
     if kind == 'relabel':
         q = rng.random()
         if q < 0.25: sp = ['prefix', rng.choice(['x_', 'y_'])]
         elif q < 0.5: sp = ['suffix', rng.choice(['_x', '_y'])]
         else:
+            # The rename map must be injective on the table's columns WHATEVER they are (the shadow state may be stale, and a
+            # collision makes the result depend on dict key order, which dict_concat takes from a set = hash order, not modelled).
+            # Two shapes guarantee that: a PERMUTATION of a set of names (swap, 3-cycle, identity entries, entries for absent columns;
+            # identity outside the set => a bijection on all names), and a CHAIN s1->s2->..->sm->fresh whose end is a name never used
+            # in this history (shift onto a name that is itself renamed away).
             cols = list(t.cols) if t is not None else []
-            olds = rng.sample(cols, min(len(cols), rng.choice([0, 1, 1, 2]))) + ([rng.choice(NAMES)] if rng.random() < 0.2 else [])
-            olds = list(dict.fromkeys(olds))
-            # targets are fresh for the whole history (never reused, never a base name): a collision would make the
-            # result depend on dict key order, which dict_concat takes from a set (hash order) - not modelled
-            news = ['n%d' % next(FRESH) for _ in olds]
-            sp = ['map', [[a, b] for a, b in zip(olds, news)]]
-        return {'op': 'relabel', 'dst': dst, 'r': r, 'sp': sp}
+            cand = list(dict.fromkeys(cols + cols + NAMES)) if rng.random() < 0.8 else list(cols)
+            m = min(len(cand), rng.choice([0, 1, 2, 2, 3, 3, 4]))
+            pref = [c for c in cols if rng.random() < 0.85]; rng.shuffle(pref)
+            names = list(dict.fromkeys(pref + rng.sample(cand, len(cand))))[:m]
+            q2 = rng.random()
+            if q2 < 0.2 or not names:                                   # renames to fresh names only
+                pairs = [[a, 'n%d' % next(FRESH)] for a in names]
+            elif q2 < 0.7:                                              # permutation: one cycle or a random permutation (fixed points allowed)
+                if rng.random() < 0.6: tgt = names[1:] + names[:1]
+                else: tgt = rng.sample(names, len(names))
+                pairs = [[a, b] for a, b in zip(names, tgt)]
+            else:                                                       # chain ending in a fresh name
+                pairs = [[a, b] for a, b in zip(names, names[1:] + ['n%d' % next(FRESH)])]
+            rng.shuffle(pairs)
+            sp = ['map', pairs]
+        return {'op': 'relabel', 'dst': dst, 'r': r, 'sp': sp, 'form': rng.choice(['relabel', 'relabel', 'rename'])}
     if kind == 'do':
         q = rng.random()
         if q < 0.6: f = [rng.choice(['isnone', 'none', 'ident'])]; ks = rng.choice([None, None, [], [rname(rng, t, 0.9)], [rname(rng, t, 0.9), rname(rng, t, 0.9)]])
@@ -681,6 +701,7 @@ def single_ops(names, nrows):
     for key in ks:
         for v in ({'S': 2}, {'L': []}, {'L': [2]}, {'L': [2, None]}, {'L': [2, 3, 4]}):
             yield {'op': 'set', 'r': r, 'key': key, 'v': v}
+            yield {'op': 'set', 'r': r, 'key': key, 'v': v, 'form': 'update'}
             yield {'op': 'call', 'dst': dst, 'r': r, 'key': key, 'arg': {'v': v}}
         yield {'op': 'del', 'r': r, 'key': key}
         yield {'op': 'getcol', 'r': r, 'key': key}
@@ -705,8 +726,12 @@ def single_ops(names, nrows):
         yield {'op': 'proj', 'dst': dst, 'r': r, 'names': ns}
         if ns: yield {'op': 'tuple', 'r': r, 'names': ns}
     for f in (['coalesce', 'a', 'b'], ['eq', 'a', 'b'], ['isnone', 'b'], ['ident', 'c']): yield {'op': 'apply', 'r': r, 'f': f}
-    for sp in (['prefix', 'x_'], ['suffix', '_x'], ['map', [['a', 'p']]], ['map', [['a', 'p'], ['b', 'q']]], ['map', [['c', 'p']]], ['map', []]):
+    for sp in (['prefix', 'x_'], ['suffix', '_x'], ['map', [['a', 'p']]], ['map', [['a', 'p'], ['b', 'q']]], ['map', [['c', 'p']]], ['map', []],
+               ['map', [['a', 'b'], ['b', 'a']]], ['map', [['b', 'a'], ['a', 'b']]], ['map', [['a', 'b'], ['b', 'c'], ['c', 'a']]], ['map', [['c', 'a'], ['b', 'c'], ['a', 'b']]],
+               ['map', [['a', 'b'], ['b', 'p']]], ['map', [['b', 'p'], ['a', 'b']]], ['map', [['a', 'a']]], ['map', [['a', 'a'], ['b', 'b']]],
+               ['map', [['a', 'c'], ['c', 'a']]], ['map', [['c', 'b'], ['b', 'c']]]):
         yield {'op': 'relabel', 'dst': dst, 'r': r, 'sp': sp}
+        yield {'op': 'relabel', 'dst': dst, 'r': r, 'sp': sp, 'form': 'rename'}
     for f in (['isnone'], ['none'], ['ident']):
         yield {'op': 'do', 'dst': dst, 'r': r, 'f': f, 'ks': None}
         yield {'op': 'do', 'dst': dst, 'r': r, 'f': f, 'ks': []}
